@@ -109,9 +109,11 @@ class Run(object):
             k = (r["rule"], r["construct"])
             if k in known_keys:
                 matched_known.append(r)
-                lines.append("KNOWN-FINDING: property=%s rule=%s construct=%s :: %s"
-                             % (self.prop, r["rule"], r["construct"],
-                                known_keys[k].get("what", r["detail"])))
+                line = ("KNOWN-FINDING: property=%s rule=%s construct=%s :: %s"
+                        % (self.prop, r["rule"], r["construct"],
+                           known_keys[k].get("what", r["detail"])))
+                if line not in lines:     # one line per listed finding
+                    lines.append(line)
             else:
                 new_viol.append(r)
         code = 0
